@@ -12,9 +12,15 @@ token is not the last one, the lexer ends every stream with its only EOF token (
 and by (E) the loop is not running at EOF. `advance` / `expect` themselves are pinned on the AST.
 
 Index scans (`while i < len(self.tokens) ...` with `i += 1` on every back path) are proved with the variant len - i. The
-main loops of the four structural readers (document body, block children, section children, list items) consume through
-callees: they are proved MODULO the assumption that a call of a value / item / section reader consumes a token (listed in
-the evidence, explored by the bounded tier). A loop that is not proved runs the hang probe: fails => violation, passes =>
+main loops of the structural readers (document body, block children, section children, list items) consume through
+callees. Those callees are under CONTRACTS proved by the same path engine as a least fixpoint over the methods of Parser
+(`parser_contracts`): CONSUMES(f) - every normal return of f has called advance(); CONSUMES_IF(f, S) - the same when f is
+entered with the current token's type in S (checked at each call site against the type fact of the path: guards on
+`self.current().type` or on a local bound to `self.current()` with no advance since); TRUTHY(f) - a normal return has
+consumed or returns a falsy value (used under `if result:`). A statement that may advance splits the path in two: it
+consumed, or pos - hence the current token and every fact about it - is unchanged; that is sound because `self.pos` is
+stored by `advance` alone (`pos_frame_pinned`). A back path is accepted when it consumed, or when it ends with a type fact
+under which the loop condition is false. A loop that is not proved runs the hang probe: fails => violation, passes =>
 undecided. No baseline file: the obligation is about every `while` loop of the class as it is now.
 """
 from __future__ import annotations
@@ -27,7 +33,7 @@ from verif import extract
 
 PARSER = "octave_mcp.core.parser"
 MAX_PATHS = 20000
-ASSUMED_CONSUMERS = ("parse_section", "parse_list_item", "parse_value", "parse_flow_expression", "parse_section_marker", "parse_literal_zone", "parse_list", "parse_meta_block")
+ASSUMED_CONSUMERS: tuple = ()  # was: the value / item / section readers; their contracts are proved now (parser_contracts)
 STRUCTURAL = ("parse_document", "parse_section_marker", "parse_section", "parse_list")  # functions whose main loop consumes through callees
 
 
@@ -65,22 +71,22 @@ def _local_sets(fn: ast.AST) -> dict[str, set[str]]:
     return {k: v for k, v in out.items() if k not in bad}
 
 
-def _under_eof(e: ast.AST, sets: dict[str, set[str]]):
-    """True / False / None (unknown) for a test when the current token is EOF"""
+def _under_type(e: ast.AST, sets: dict[str, set[str]], t: str, subjects: tuple[str, ...] = ("self.current().type",)):
+    """True / False / None (unknown) for a test when the current token's type is `t`"""
     if isinstance(e, ast.Constant):
         return bool(e.value)
     if isinstance(e, ast.BoolOp):
-        vals = [_under_eof(v, sets) for v in e.values]
+        vals = [_under_type(v, sets, t, subjects) for v in e.values]
         if isinstance(e.op, ast.And):
             return False if any(v is False for v in vals) else (True if all(v is True for v in vals) else None)
         return True if any(v is True for v in vals) else (False if all(v is False for v in vals) else None)
     if isinstance(e, ast.UnaryOp) and isinstance(e.op, ast.Not):
-        v = _under_eof(e.operand, sets)
+        v = _under_type(e.operand, sets, t, subjects)
         return None if v is None else (not v)
-    if isinstance(e, ast.Compare) and len(e.ops) == 1 and ast.unparse(e.left) == "self.current().type":
+    if isinstance(e, ast.Compare) and len(e.ops) == 1 and ast.unparse(e.left) in subjects:
         op, rhs = e.ops[0], e.comparators[0]
-        if isinstance(op, (ast.Eq, ast.NotEq)) and isinstance(rhs, ast.Attribute) and ast.unparse(rhs.value) == "TokenType":
-            return (rhs.attr == "EOF") == isinstance(op, ast.Eq)
+        if isinstance(op, (ast.Eq, ast.NotEq, ast.Is, ast.IsNot)) and isinstance(rhs, ast.Attribute) and ast.unparse(rhs.value) == "TokenType":
+            return (rhs.attr == t) == isinstance(op, (ast.Eq, ast.Is))
         if isinstance(op, (ast.In, ast.NotIn)):
             mem = None
             if isinstance(rhs, (ast.Tuple, ast.Set, ast.List)) and all(isinstance(x, ast.Attribute) and ast.unparse(x.value) == "TokenType" for x in rhs.elts):
@@ -88,8 +94,13 @@ def _under_eof(e: ast.AST, sets: dict[str, set[str]]):
             elif isinstance(rhs, ast.Name) and rhs.id in sets:
                 mem = sets[rhs.id]
             if mem is not None:
-                return ("EOF" in mem) == isinstance(op, ast.In)
+                return (t in mem) == isinstance(op, ast.In)
     return None
+
+
+def _under_eof(e: ast.AST, sets: dict[str, set[str]]):
+    """True / False / None (unknown) for a test when the current token is EOF"""
+    return _under_type(e, sets, "EOF")
 
 
 def _consuming_call(n: ast.AST) -> bool:
@@ -233,6 +244,7 @@ def analyse() -> list[dict]:
     tree = extract.module_ast(PARSER)
     msets = _module_sets()
     out = []
+    K = None
     for cls in [n for n in tree.body if isinstance(n, ast.ClassDef) and n.name == "Parser"]:
         for fn in [n for n in cls.body if isinstance(n, ast.FunctionDef)]:
             sets = dict(msets)
@@ -280,20 +292,18 @@ def analyse() -> list[dict]:
                             rec["proved"] = True
                             rec["variant"] = f"len(tokens) - {idx}"
                 rec["proved_modulo_callees"] = False
+                rec["proved_by_contracts"] = False
                 if not rec["proved"] and rec["eof_exit"]:
-                    # structural loops consume through callees: the same path condition with calls of the value / item /
-                    # section readers counted as consuming (an ASSUMPTION about those callees, explored by the bounded tier)
-                    global _consuming_call
-                    saved = _consuming_call
-                    try:
-                        _consuming_call = lambda n: saved(n) or (isinstance(n, ast.Call) and isinstance(n.func, ast.Attribute) and ast.unparse(n.func.value) == "self" and n.func.attr in ASSUMED_CONSUMERS)  # noqa: E731
-                        paths = _paths(lp.body, [MAX_PATHS])
-                        back = [(c, e) for c, e in paths if e in ("fall", "continue")]
-                        rec["proved_modulo_callees"] = bool(paths) and all(c for c, _ in back)
-                    except TooManyPaths:
-                        pass
-                    finally:
-                        _consuming_call = saved
+                    # loops that consume through callees: the callees' contracts (CONSUMES / CONSUMES_IF / TRUTHY) are PROVED
+                    # by parser_contracts() as a least fixpoint - nothing about them is assumed any more
+                    if K is None:
+                        K, _why = parser_contracts()
+                    ok, how = structural_loop_proved(fn, lp, K, msets)
+                    rec["proved_by_contracts"] = ok
+                    rec["contract_detail"] = how
+                    if ok:
+                        rec["proved"] = True
+                        rec["variant"] = "len(tokens) - 1 - pos (consumption through callees under proved contracts)"
                 out.append(rec)
     return out
 
@@ -312,3 +322,412 @@ def helpers_pinned() -> list[str]:
         if got != text:
             problems.append(f"{q} is no longer `{text.splitlines()[1].strip()} ...`")
     return problems
+
+
+# ---------------------------------------------------------------------------------------------------------------------
+# Callee contracts "consumes a token or raises" (replaces the former ASSUMPTION about the value / item / section readers)
+# ---------------------------------------------------------------------------------------------------------------------
+#
+# Contract CONSUMES(f): every execution of Parser.f that RETURNS NORMALLY has evaluated a direct self.advance() /
+# self.expect(...) or a call self.g(...) of a method g with CONSUMES(g). Proved by path enumeration of the whole body of f
+# (if / try / with; `while True` falls through only by `break`; other loops may run zero times; a `return` / `break`
+# inside a loop carries what that one iteration consumed - earlier iterations can only have consumed more) as the LEAST
+# fixpoint over the methods of Parser: f enters the set only when every return path consumes through members already in
+# it, so mutual recursion is never used to justify itself. A return path of the shape `if <test true only at EOF-like
+# token>: return` is NOT exempted: the contract is unconditional.
+# Soundness needs: pos is stored nowhere but in __init__ (reset to 0 once) and advance (pos_frame_pinned).
+
+
+def pos_frame_pinned() -> list[str]:
+    """`self.pos` is assigned only in Parser.__init__ and Parser.advance (no backtracking store anywhere in the module)"""
+    tree = extract.module_ast(PARSER)
+    bad = []
+    for cls in [n for n in tree.body if isinstance(n, ast.ClassDef)]:
+        for fn in [n for n in cls.body if isinstance(n, (ast.FunctionDef, ast.AsyncFunctionDef))]:
+            for n in ast.walk(fn):
+                tgt = []
+                if isinstance(n, ast.Assign):
+                    tgt = n.targets
+                elif isinstance(n, (ast.AugAssign, ast.AnnAssign)):
+                    tgt = [n.target]
+                elif isinstance(n, (ast.For, ast.AsyncFor)):
+                    tgt = [n.target]
+                elif isinstance(n, (ast.With, ast.AsyncWith)):
+                    tgt = [i.optional_vars for i in n.items if i.optional_vars is not None]
+                elif isinstance(n, ast.NamedExpr):
+                    tgt = [n.target]
+                elif isinstance(n, ast.Delete):
+                    tgt = n.targets
+                for t in tgt:
+                    for a in ast.walk(t):
+                        if isinstance(a, ast.Attribute) and a.attr == "pos" and not (cls.name == "Parser" and fn.name in ("__init__", "advance")):
+                            bad.append(f"{cls.name}.{fn.name} L{n.lineno}: stores `{ast.unparse(a)}`")
+                if isinstance(n, ast.Call) and ast.unparse(n.func) in ("setattr", "object.__setattr__") and len(n.args) >= 2 and not (isinstance(n.args[1], ast.Constant) and n.args[1].value != "pos"):
+                    bad.append(f"{cls.name}.{fn.name} L{n.lineno}: setattr with a name that may be 'pos'")
+                if isinstance(n, ast.Attribute) and n.attr == "__dict__":
+                    bad.append(f"{cls.name}.{fn.name} L{n.lineno}: touches __dict__")
+    return bad
+
+
+class _Contracts:
+    """contracts on Parser methods used by the path engine (all proved by it, least fixpoint; nothing assumed)"""
+
+    def __init__(self):
+        self.known: set[str] = set()  # CONSUMES(f): every normal return has consumed
+        self.cond: dict[str, frozenset] = {}  # CONSUMES_IF(f, S): ... when entered with current.type in S
+        self.truthy: set[str] = set()  # TRUTHY(f): a normal return has consumed, or returns a falsy value
+        self.may_adv: set[str] = set()  # may call advance() (transitively); every other method leaves pos alone
+        self.sets: dict[str, set[str]] = {}
+        self.all_types: frozenset = frozenset()
+
+
+def _token_types() -> frozenset:
+    tree = extract.module_ast("octave_mcp.core.lexer")
+    cls = next(n for n in tree.body if isinstance(n, ast.ClassDef) and n.name == "TokenType")
+    names = set()
+    for st in cls.body:
+        if isinstance(st, ast.Assign) and len(st.targets) == 1 and isinstance(st.targets[0], ast.Name):
+            names.add(st.targets[0].id)
+    return frozenset(names)
+
+
+def _self_calls(n: ast.AST) -> set[str]:
+    return {c.func.attr for c in ast.walk(n) if isinstance(c, ast.Call) and isinstance(c.func, ast.Attribute) and ast.unparse(c.func.value) == "self"}
+
+
+def _self_escapes(n: ast.AST) -> bool:
+    """bare `self` used other than as the object of an attribute access (passed on, stored, captured)"""
+    attr_bases = {id(a.value) for a in ast.walk(n) if isinstance(a, ast.Attribute)}
+    return any(isinstance(x, ast.Name) and x.id == "self" and id(x) not in attr_bases for x in ast.walk(n))
+
+
+def _may_advance_methods(fns: dict[str, ast.FunctionDef]) -> set[str]:
+    may = {"advance", "expect"}
+    changed = True
+    while changed:
+        changed = False
+        for name, fn in fns.items():
+            if name in may:
+                continue
+            if _self_calls(fn) & may or any(_self_escapes(st) for st in fn.body):
+                may.add(name)
+                changed = True
+    return may
+
+
+_ST = tuple  # (consumed, tv, aliases, fact, exit, rk)
+
+
+def _xpaths(stmts: list[ast.stmt], K: _Contracts, init: tuple, budget: list[int]) -> list[tuple]:
+    """paths through a statement list. State: consumed (a token was consumed for certain), tv (locals holding the result
+    of a TRUTHY method), aliases (locals holding self.current() with no advance since), fact (over-approximation of the
+    current token's type, None = any; reset by anything that may advance), exit, rk (kind of returned value)."""
+
+    def may_adv(n):
+        return bool(_self_calls(n) & K.may_adv) or _self_escapes(n)
+
+    def call_consumes(n, fact):
+        if not (isinstance(n, ast.Call) and isinstance(n.func, ast.Attribute) and ast.unparse(n.func.value) == "self"):
+            return False
+        a = n.func.attr
+        if a in ("advance", "expect") or a in K.known:
+            return True
+        return a in K.cond and fact is not None and fact <= K.cond[a]
+
+    def uncond(e, fact):
+        """a consuming call evaluated unconditionally (and first: before anything else that may advance) by expression e"""
+        if isinstance(e, (ast.IfExp, ast.Lambda, ast.ListComp, ast.SetComp, ast.DictComp, ast.GeneratorExp)):
+            return False
+        if isinstance(e, ast.BoolOp):
+            return uncond(e.values[0], fact)
+        if call_consumes(e, fact):
+            return True
+        if isinstance(e, ast.Call) and e.func is not None and may_adv(e) and not call_consumes(e, fact):
+            # arguments are evaluated before the call: look into them, but a may-advance non-consumer voids the fact
+            return any(uncond(c, fact) for c in list(e.args) + [k.value for k in e.keywords])
+        return any(uncond(c, fact) for c in ast.iter_child_nodes(e))
+
+    def stores(st):
+        return {n.id for n in ast.walk(st) if isinstance(n, ast.Name) and isinstance(n.ctx, (ast.Store, ast.Del))}
+
+    def refine(test, al, fact):
+        subj = ("self.current().type",) + tuple(f"{a}.type" for a in al)
+        base = fact if fact is not None else K.all_types
+        th = frozenset(t for t in base if _under_type(test, K.sets, t, subj) is not False)
+        el = frozenset(t for t in base if _under_type(test, K.sets, t, subj) is not True)
+        return (None if th == K.all_types else th), (None if el == K.all_types else el)
+
+    def simple(st, state):
+        c, tv, al, fact, _, _ = state
+        v = getattr(st, "value", None)
+        cons = v is not None and uncond(v, fact)
+        ma = may_adv(st)
+        sto = stores(st)
+        tv2, al2 = tv - sto, al - sto
+        if isinstance(st, ast.Assign) and len(st.targets) == 1 and isinstance(st.targets[0], ast.Name) and isinstance(st.value, ast.Call):
+            f = st.value.func
+            if isinstance(f, ast.Attribute) and ast.unparse(f.value) == "self":
+                if f.attr in K.truthy:
+                    tv2 = tv2 | {st.targets[0].id}
+                if f.attr == "current" and not st.value.args:
+                    al2 = al2 | {st.targets[0].id}
+        if cons:
+            return [(True, tv2, frozenset(), None)]
+        if ma:
+            # pos is written by advance() alone, and only upwards: either the statement consumed at least one token, or pos -
+            # hence the current token, the type fact and the aliases - is what it was
+            return [(True, tv2, frozenset(), None), (c, tv2, al2, fact)]
+        return [(c, tv2, al2, fact)]
+
+    def stmt(st, state):
+        c, tv, al, fact, _, _ = state
+        if isinstance(st, ast.Break):
+            return [(c, tv, al, fact, "break", None)]
+        if isinstance(st, ast.Continue):
+            return [(c, tv, al, fact, "continue", None)]
+        if isinstance(st, ast.Raise):
+            return [(c, tv, al, fact, "raise", None)]
+        if isinstance(st, ast.Return):
+            outs = []
+            for c2, tv2, al2, fact2 in simple(st, state):
+                outs.append(_ret(st, c2, tv, tv2, al2, fact2))
+            return outs
+        if False:
+            c2 = tv2 = al2 = fact2 = None
+            v = st.value
+            if c2:
+                rk = "consumed"
+            elif v is None or (isinstance(v, ast.Constant) and not v.value):
+                rk = "falsy"
+            elif isinstance(v, ast.Name) and v.id in tv:
+                rk = "tv"
+            elif isinstance(v, ast.Call) and isinstance(v.func, ast.Attribute) and ast.unparse(v.func.value) == "self" and v.func.attr in K.truthy:
+                rk = "tv"
+            else:
+                rk = "other"
+            return [(c2, tv2, al2, fact2, "return", rk)]
+        if isinstance(st, ast.If):
+            t = st.test
+            cons_t = uncond(t, fact)
+            ma = may_adv(t)
+            th_c = el_c = c or cons_t
+            if isinstance(t, ast.Name) and t.id in tv:
+                th_c = True
+            if isinstance(t, ast.UnaryOp) and isinstance(t.op, ast.Not) and isinstance(t.operand, ast.Name) and t.operand.id in tv:
+                el_c = True
+            if isinstance(t, ast.BoolOp) and isinstance(t.op, ast.And) and any(isinstance(x, ast.Name) and x.id in tv for x in t.values):
+                th_c = True
+            if isinstance(t, ast.Compare) and len(t.ops) == 1 and isinstance(t.left, ast.Name) and t.left.id in tv and isinstance(t.comparators[0], ast.Constant) and t.comparators[0].value is None:
+                if isinstance(t.ops[0], ast.IsNot):
+                    pass  # `x is not None` does not give truthiness of other falsy values: no conclusion
+            thf, elf = refine(t, al, fact)
+            sto = stores(t)
+            out = seq(st.body, (th_c, tv - sto, al, thf, "fall", None)) + seq(st.orelse, (el_c, tv - sto, al, elf, "fall", None))
+            if ma:  # the test itself may have consumed: then nothing is known about the current token
+                out += seq(st.body, (True, tv - sto, frozenset(), None, "fall", None)) + seq(st.orelse, (True, tv - sto, frozenset(), None, "fall", None))
+            return list(dict.fromkeys(out))
+        if isinstance(st, (ast.While, ast.For, ast.AsyncFor)):
+            sto = stores(st)
+            infinite = isinstance(st, ast.While) and isinstance(st.test, ast.Constant) and st.test.value is True
+            test = st.test if isinstance(st, ast.While) else None
+            test_pure = test is not None and not may_adv(test)
+            out = []
+            # the first iteration is entered with the incoming fact refined by the test; later ones with what the test alone says
+            runs_at_least_once = False
+            if test_pure and fact is not None and fact and all(_under_type(test, K.sets, t, ("self.current().type",) + tuple(f"{a}.type" for a in al)) is True for t in fact):
+                runs_at_least_once = True
+            if isinstance(st, ast.While) and not test_pure:
+                cons_t = uncond(test, fact)
+            else:
+                cons_t = False
+            if test_pure:
+                in_f, out_f = refine(test, frozenset(), None)
+            else:
+                in_f = out_f = None
+            body_ma = any(may_adv(b) for b in st.body)
+            if not infinite and not runs_at_least_once:
+                zf = None
+                if test_pure and not body_ma:
+                    zf = refine(test, al, fact)[1]
+                elif test_pure:
+                    zf = out_f
+                out += seq(st.orelse, (c or cons_t, tv - sto, (al - sto) if not body_ma else frozenset(), zf, "fall", None)) if st.orelse else [(c or cons_t, tv - sto, (al - sto) if not body_ma else frozenset(), zf, "fall", None)]
+            if runs_at_least_once and not body_ma:
+                first_f = refine(test, al, fact)[0]
+                first_al = al - sto
+            elif runs_at_least_once:
+                # only the FIRST iteration sees the incoming fact; analyse it separately and let it stand for the consumption
+                first_f = refine(test, al, fact)[0]
+                first_al = al - sto
+            else:
+                first_f, first_al = in_f, frozenset()
+            starts = [(c or cons_t, tv - sto, first_al, first_f, "fall", None)]
+            if runs_at_least_once:
+                pass
+            inner = []
+            for s0 in starts:
+                inner += seq(st.body, s0)
+            if runs_at_least_once:
+                # after the first iteration (whose every non-raising path is in `inner`) further iterations may follow:
+                # they can only add consumption. Exits: break / return from any iteration; condition false after an iteration.
+                later = seq(st.body, (c or cons_t, tv - sto, frozenset(), in_f, "fall", None))
+                first_all_consume = all(x[0] for x in inner if x[4] in ("fall", "continue", "break", "return"))
+                for x in inner:
+                    if x[4] in ("return", "raise"):
+                        out.append(x)
+                    elif x[4] == "break":
+                        out.append((x[0], x[1], x[2], x[3], "fall", None))
+                    else:  # fall / continue: the loop may stop here (condition false) or go on
+                        out.append((x[0], x[1] - sto, frozenset(), out_f if test_pure else None, "fall", None))
+                for x in later:
+                    cc = x[0] or first_all_consume
+                    if x[4] in ("return", "raise"):
+                        out.append((cc,) + x[1:])
+                    elif x[4] == "break":
+                        out.append((cc, x[1], x[2], x[3], "fall", None))
+            else:
+                for x in inner:
+                    if x[4] in ("return", "raise"):
+                        out.append(x)
+                    elif x[4] == "break":
+                        out.append((x[0], x[1], x[2], x[3], "fall", None))
+                    elif infinite:
+                        pass  # comes back to the head: no exit here
+                    # non-infinite: leaving by the condition is the zero-iteration / out_f path above (consumption of
+                    # earlier iterations is not counted: conservative)
+            return list(dict.fromkeys(out))
+        if isinstance(st, ast.Try):
+            sto = stores(st)
+            out = seq(st.body + st.orelse, state)
+            for h in st.handlers:
+                out += seq(h.body, (c, tv - sto, frozenset(), None, "fall", None))
+            if st.finalbody:
+                fin = []
+                for x in out:
+                    for y in seq(st.finalbody, (x[0], x[1], x[2], x[3], "fall", None)):
+                        fin.append(y if y[4] != "fall" else (y[0], y[1], y[2], y[3], x[4], x[5]))
+                out = fin
+            return list(dict.fromkeys(out))
+        if isinstance(st, (ast.With, ast.AsyncWith)):
+            if any(may_adv(i.context_expr) for i in st.items):
+                state = (c, tv, frozenset(), None, "fall", None)
+            return seq(st.body, state)
+        if isinstance(st, ast.Match):
+            out = [(c, tv, frozenset(), None, "fall", None)]
+            for case in st.cases:
+                out += seq(case.body, (c, tv, frozenset(), None, "fall", None))
+            return list(dict.fromkeys(out))
+        if isinstance(st, (ast.FunctionDef, ast.AsyncFunctionDef, ast.ClassDef)):
+            if _self_escapes(st) or _self_calls(st) & K.may_adv:
+                return [(c, tv, frozenset(), None, "fall", None)]  # a closure over self that may advance when called
+            return [state]
+        if isinstance(st, (ast.Pass, ast.Import, ast.ImportFrom, ast.Global, ast.Nonlocal)):
+            return [state]
+        return [(c2, tv2, al2, fact2, "fall", None) for c2, tv2, al2, fact2 in simple(st, state)]
+
+    def _ret(st, c2, tv, tv2, al2, fact2):
+        v = st.value
+        if c2:
+            rk = "consumed"
+        elif v is None or (isinstance(v, ast.Constant) and not v.value):
+            rk = "falsy"
+        elif isinstance(v, ast.Name) and v.id in tv:
+            rk = "tv"
+        elif isinstance(v, ast.Call) and isinstance(v.func, ast.Attribute) and ast.unparse(v.func.value) == "self" and v.func.attr in K.truthy:
+            rk = "tv"
+        else:
+            rk = "other"
+        return (c2, tv2, al2, fact2, "return", rk)
+
+    def seq(ss, state):
+        cur = [state]
+        for st in ss:
+            nxt = []
+            for x in cur:
+                if x[4] != "fall":
+                    nxt.append(x)
+                    continue
+                nxt += stmt(st, x)
+            # an empty type fact means no token type is possible here: the state is unreachable
+            cur = [y for y in dict.fromkeys(nxt) if not (y[3] is not None and not y[3])]
+            budget[0] -= len(cur)
+            if budget[0] < 0:
+                raise TooManyPaths()
+        return cur
+
+    return seq(stmts, init)
+
+
+def parser_contracts() -> tuple[_Contracts, dict[str, str]]:
+    """least fixpoint of CONSUMES / CONSUMES_IF / TRUTHY over the methods of Parser"""
+    tree = extract.module_ast(PARSER)
+    cls = next(n for n in tree.body if isinstance(n, ast.ClassDef) and n.name == "Parser")
+    fns = {n.name: n for n in cls.body if isinstance(n, ast.FunctionDef)}
+    K = _Contracts()
+    K.all_types = _token_types()
+    K.may_adv = _may_advance_methods(fns)
+    msets = _module_sets()
+    why: dict[str, str] = {}
+    skip = ("advance", "expect", "current", "peek", "__init__")
+    changed = True
+    rounds = 0
+    while changed and rounds < 12:
+        changed = False
+        rounds += 1
+        for name, fn in fns.items():
+            if name in skip or name not in K.may_adv:
+                continue
+            K.sets = dict(msets)
+            K.sets.update(_local_sets(fn))
+            try:
+                if name not in K.known:
+                    paths = _xpaths(fn.body, K, (False, frozenset(), frozenset(), None, "fall", None), [MAX_PATHS])
+                    rets = [x for x in paths if x[4] in ("return", "fall")]
+                    if rets and all(x[0] for x in rets):
+                        K.known.add(name)
+                        K.truthy.add(name)
+                        why.pop(name, None)
+                        changed = True
+                        continue
+                    if name not in K.truthy and rets and all(x[0] or x[4] == "fall" or x[5] in ("falsy", "tv") for x in rets):
+                        K.truthy.add(name)
+                        changed = True
+                    bad = [x for x in rets if not x[0]]
+                    why[name] = f"{len(bad)} of {len(rets)} abstract normal-return state(s) without consumption"
+                    S = set()
+                    for t in sorted(K.all_types):
+                        pt = _xpaths(fn.body, K, (False, frozenset(), frozenset(), frozenset({t}), "fall", None), [MAX_PATHS])
+                        rt = [x for x in pt if x[4] in ("return", "fall")]
+                        if all(x[0] for x in rt):  # vacuously true when every path raises under t
+                            S.add(t)
+                    S = frozenset(S)
+                    if S and S != K.cond.get(name):
+                        K.cond[name] = S
+                        changed = True
+            except TooManyPaths:
+                why[name] = "too many paths"
+    return K, why
+
+
+def structural_loop_proved(fn: ast.FunctionDef, lp: ast.While, K: _Contracts, msets) -> tuple[bool, str]:
+    """(P) for a loop that consumes through callees: every path back to the head has consumed - directly, through a callee
+    under contract (CONSUMES; CONSUMES_IF with the type fact of that path; TRUTHY inside `if result:`) - or ends with a
+    type fact under which the loop condition is false"""
+    K.sets = dict(msets)
+    K.sets.update(_local_sets(fn))
+    if bool(_self_calls(lp.test) & K.may_adv):
+        return False, "the loop condition may advance"
+    entry = frozenset(t for t in K.all_types if _under_type(lp.test, K.sets, t) is not False)
+    entry_f = None if entry == K.all_types else entry
+    try:
+        paths = _xpaths(lp.body, K, (False, frozenset(), frozenset(), entry_f, "fall", None), [MAX_PATHS])
+    except TooManyPaths:
+        return False, "too many paths"
+    bad = 0
+    for x in paths:
+        if x[4] not in ("fall", "continue") or x[0]:
+            continue
+        if x[3] is not None and all(_under_type(lp.test, K.sets, t) is False for t in x[3]):
+            continue  # the loop stops here
+        bad += 1
+    return (bad == 0 and bool(paths)), (f"{bad} abstract back-path state(s) neither consume nor stop the loop" if bad else f"{len(paths)} abstract states")
